@@ -428,6 +428,57 @@ def run_resume_replies(ck, rng, quick, sig="oracle:kept-until-acknowledged:repli
     ck.count("resume_reply_scripts", len(scripts))
 
 
+def run_restart(ck, rng, quick):
+    """the server is stopped (threadless) and started again while events are transmitted but not acknowledged: the connection ended,
+    so they are transmitted again on the next activated connection; acknowledged ones are not"""
+    h = c07.harness()
+    scripts, meta = [], {}
+    for i in range(18 if quick else 200):
+        mode = rng.choice([0, 2])
+        k = rng.choice([2, 4, 12])
+        a = rng.range(0, 3)
+        b = a + rng.range(1, k)
+        lines = ["cfg mode=%d k=%d w=8 handlers=64 lowq=50 highq=10" % (mode, k)] + (["group -"] if mode == 2 else []) + ["start", "connect c0 10.0.0.1:1000", "tick",
+                 "rx c0 " + apci.STARTDT_ACT.hex(), "tick"]
+        for e in range(1, a + 1):
+            lines.append("enq " + c07.ev_asdu(e).hex())
+        for _ in range(a // k + 2):
+            lines += ["tick %d" % (k + 1), "rxs c0"]
+        lines.append("tick 2")
+        for e in range(a + 1, b + 1):
+            lines.append("enq " + c07.ev_asdu(e).hex())
+        lines += ["tick %d" % (b - a + 1), "stop", "start"]
+        lines += ["connect c1 10.0.0.1:1001", "tick", "rx c1 " + apci.STARTDT_ACT.hex(), "tick %d" % (k + 1)]
+        for _ in range((b - a) // k + 2):
+            lines += ["rxs c1", "tick %d" % (k + 1)]
+        sid = "rs%d" % i
+        scripts.append((sid, lines)); meta[sid] = (mode, k, a, b)
+    rc = runner.run_batch(h, scripts, timeout=3600)
+    for sid, lines in scripts:
+        mode, k, a, b = meta[sid]
+        ck.evaluations += 1
+        o = rc.get(sid, dict(out=[], crash=None))
+        if o["crash"]:
+            ck.fail("input", "crash:%s:%s" % (o["crash"]["kind"], o["crash"]["site"]), "server aborted: %s at %s" % (o["crash"]["kind"], o["crash"]["site"]), {"script": lines, "stderr": o["crash"]["text"]})
+            continue
+        per = {"c0": [], "c1": []}
+        for l in o["out"]:
+            w = l.split()
+            if w[0] == "tx" and w[1] in per:
+                for f in apci.split_stream(bytes.fromhex(w[2]))[0]:
+                    x = apci.parse_apdu(f)
+                    if x["kind"] == "I" and x["asdu"][0] == 30:
+                        per[w[1]].append(x["asdu"][6] | x["asdu"][7] << 8)
+        if [e for e in per["c0"] if e <= a] != list(range(1, a + 1)) or not any(l.startswith("ev c1 ACTIVATED") for l in o["out"]):
+            continue
+        want = list(range(a + 1, b + 1))
+        if per["c1"] != want:
+            ck.fail("input", "oracle:resent-after-restart", "server event buffer: events %s were transmitted and not acknowledged when the server was stopped; after the restart the next activated connection received %s" % (
+                want, per["c1"]), {"script": lines, "observed": [l[:100] for l in o["out"] if l.startswith(("tx c1", "ev ", "q "))][-8:]})
+        ck.nontriv(("restart", mode, k, a, b))
+    ck.count("restart_scripts", len(scripts))
+
+
 def run_capacity(ck, rng, quick):
     """capacity clause at server level: a server created for N event entries retains at least the N most recent equal-size
     events buffered while no client is connected -- in the single-group AND the multiple-groups mode, whatever the size of
@@ -495,6 +546,7 @@ def run(ck):
     run_trace(ck, rng, quick)
     run_capacity(ck, rng, quick)
     run_resume_replies(ck, rng, quick)
+    run_restart(ck, rng, quick)
     ck.extra["exhaustive"] = False
 
 
